@@ -79,8 +79,14 @@ func culprit(b *shape.Built, p [3]float64, tau float64) (string, string) {
 					key += ":profile-min-corner-farther-than-max-corner"
 				}
 			case "offset2", "offset3", "extround", "loft", "shell3":
-				if underestimating(e.N) {
-					key += ":operand-field-underestimates-distance"
+				// the recorded finding is about the OPERANDS of these constructors (they enlarge the operand's
+				// box by the offset / round / thickness, which is enough exactly when the operand's field is a
+				// distance bound); over operands with exact fields a leak is a violation of its own
+				for _, k := range e.N.K {
+					if underestimating(k) {
+						key += ":operand-field-underestimates-distance"
+						break
+					}
 				}
 			}
 			return key, fmt.Sprintf("sub-program %s: value %v at %v which is %v outside its box", e.N, val, e.P, out)
